@@ -76,6 +76,9 @@ func parseJPEG(d []byte) *Map {
 		if n < 2 || pos+2+n > len(d) {
 			break
 		}
+		for _, f := range AppFields(mk, d[pos+4:pos+2+n]) {
+			m.add(f.Name, pos+4+f.Off, f.Len, f.Little, f.Kind)
+		}
 		pos += 2 + n
 		m.Ends = append(m.Ends, pos)
 		if mk == 0xDA {
